@@ -25,13 +25,33 @@ package webrtc
 // The mid counter is written only by CreateOffer and only grows.
 //@ field PeerConnection.greaterMid props C09 writers (*PeerConnection).CreateOffer
 
-// Mid allocation in CreateOffer: every mid handed to a transceiver is the decimal form of
-// the counter's value after it was stepped by one in the same loop iteration, and only a
-// transceiver without a mid is given one (so SetMid cannot fail there). That the counter only grows (new mids exceed every numeric mid seen
-// before) holds barring wrap-around of the 64-bit counter; it is not claimed here because
-// no inductive bound excludes the wrap (a remote mid of 9223372036854775807 reaches it).
+// Assumed: the mid of a remote media section is a function of that section (as for C07).
+
+//@ func specMidIsNumeric
+//@ pure
+//@ nosafety
+//@ func specMidNumber
+//@ pure
+//@ nosafety
+
+// Mid allocation in CreateOffer, as per-iteration postconditions of its two loops and a
+// region postcondition at the SetMid call:
+//  - scanning the current remote description: after the iteration for a media section the
+//    counter is at least that section's mid when the mid is a decimal number;
+//  - visiting the local transceivers: the counter does not decrease (barring the wrap of the
+//    64-bit counter at 9223372036854775807), and afterwards it is at least the
+//    transceiver's mid when that is a decimal number;
+//  - the mid handed to a transceiver is the decimal form of the counter's value after it was
+//    stepped by one in the same iteration, and only a transceiver without a mid gets one.
+// Together: a newly allocated mid exceeds every numeric mid of the remote description and of
+// the transceivers visited before it (induction over the iterations is not formalised: the
+// loop havoc forgets the remote description, so the cross-iteration invariant is not stated).
 //@ func (*PeerConnection).CreateOffer #mids
 //@ props C09
 //@ nosafety
 //@ requires pcValid(pc)
 //@ atcall (*RTPTransceiver).SetMid assert callarg1 == strconv.Itoa(pc.greaterMid) && pc.greaterMid == loophead(pc.greaterMid) + 1 && callarg0.Mid() == ""
+//@ loop 1 step specMidIsNumeric(ufstr("midOf", media)) ==> specMidNumber(ufstr("midOf", media)) <= pc.greaterMid
+//@ loop 1 step loophead(pc.greaterMid) <= pc.greaterMid
+//@ loop 2 step loophead(pc.greaterMid) != 9223372036854775807 ==> loophead(pc.greaterMid) <= pc.greaterMid
+//@ loop 2 step specMidIsNumeric(t.Mid()) && loophead(pc.greaterMid) != 9223372036854775807 ==> specMidNumber(t.Mid()) <= pc.greaterMid
